@@ -1273,8 +1273,14 @@ func (s *Session) output(seg *segment, remoteAddr net.Addr) error {
 	default:
 		return fmt.Errorf("unsupported transport protocol %v", s.transportProtocol)
 	}
-	seq, _ := seg.Seq()
-	s.lastSend.Store(seq)
+	if !isAckProtocol(seg.Protocol()) {
+		// An ack carries the sequence number of the segment before the next one
+		// to be queued. It must not look like that segment has been sent,
+		// otherwise closeWithError() stops waiting for the close request (and
+		// the data in front of it) to leave the send queue.
+		seq, _ := seg.Seq()
+		s.lastSend.Store(seq)
+	}
 	s.lastTXTime.Store(time.Now().UnixMicro())
 	return nil
 }
